@@ -678,12 +678,6 @@ def pred_d10(l1, l2) -> bool:
     return diff
 
 
-def pred_d10_incall(case: dict) -> bool:
-    """Two literals of one call that the builder's cache identifies although they differ in the sign of a zero."""
-    lits = [dec_lit(a) for a in case["args"] if a[0] in "sl"]
-    return any(pred_d10(a, b) for i, a in enumerate(lits) for b in lits[i + 1 :])
-
-
 def check_cache(run, drv, seqs, stats):
     """Returns (tie_problems, property_failures) for promotion sequences."""
     lines = [cache_line(s) for s in seqs]
@@ -862,13 +856,6 @@ def check_batch(run, drv, cases, stats, rec, cast_log, e2e_every=0):
             if not isinstance(r, str) and any(o[0] == "?" for o in r):
                 problems.append((c, fe, "tie", f"unreadable operand {r}"))
                 continue
-            if fe == "builder" and pred_d10_incall(c):
-                # inside D10's predicate: `_cast_inputs` goes through the constant cache, which the cast model leaves to
-                # `promote`; the clash itself is the known finding, everything else about the call is still compared below
-                stats["builder_d10_incall"] += 1
-                if same_out(r, m["expected"]):
-                    problems.append((c, fe, "property", f"builder feeds {show_out(r)} ; rule {show_out(m['expected'])}", "D10"))
-                continue
             # ---- tie
             d = same_out(r, m[fe], stats)
             if d:
@@ -910,6 +897,8 @@ CORPUS = [
     ("Loop", 18, ["s:i1", "s:b1", "t:FLOAT:1", "s:i2"]),
     ("Relu", 18, ["t:FLOAT:1", "s:i1"]),
     ("Pad", 18, ["t:FLOAT16:1", "l:i0,i1", "s:" + enc_scalar(-0.0)]),
+    ("Mul", 18, ["s:" + enc_scalar(-0.0), "s:" + enc_scalar(0.0)]),      # D10 inside one call (fixed: must pass now)
+    ("Sum", 18, ["t:FLOAT:1", "s:" + enc_scalar(0.0), "s:" + enc_scalar(-0.0), "s:i0", "s:b0"]),
 ]
 
 
@@ -919,7 +908,8 @@ def main(run: core.Run) -> None:
         "wrap-around, non-zero -> true); the numpy `astype` used to evaluate emitted CastLike nodes is validated against "
         "onnxruntime's CastLike on every (constant, dtype) pair seen in the run",
         "NumPy >= 2 conversion `np.array(python_value, dtype)` as transcribed in OV.Autocast.npCast (out-of-range Python ints raise)",
-        "A-py: Python numeric == / hash (True == 1 == 1.0, 0.0 == -0.0, equal numbers hash equal); repr of floats is injective",
+        "A-py: repr of a Python bool/int/float determines its type and value (sign of zero included) and is injective on floats; "
+        "the constant cache key is (repr(value), dtype) since commit 610a39a",
         "inf/nan literals, strings and empty lists are outside the model; float values are exact dyadic rationals and IEEE "
         "rounding is symbolic (only 'rounded directly' vs 'rounded through float32' is distinguished)",
         "interning of type-constraint names to numbers (Shape.intern) is alpha-renaming; the generated interned table is "
@@ -970,7 +960,8 @@ def main(run: core.Run) -> None:
                 print(f"REPLAY tie cache: {d}")
             for p in prop:
                 print(f"REPLAY property cache: {p[3]}")
-            if tie or [p for p in prop if not pred_d10(p[0][p[1]][0], p[0][p[2]][0])]:
+            d10_open = any(f["id"] == "D10" for f in run.open_findings())
+            if tie or [p for p in prop if not (d10_open and pred_d10(p[0][p[1]][0], p[0][p[2]][0]))]:
                 run.violation(c, "replayed cache sequence still fails")
         elif "case" in c:
             cc = c["case"]
@@ -1008,7 +999,7 @@ def main(run: core.Run) -> None:
 
     # ---- cache
     seqs = [
-        [(0.0, None), (-0.0, None)],                       # D10 witness
+        [(0.0, None), (-0.0, None)],                       # D10 witness (fixed by 610a39a: must pass now)
         [([0.0], "FLOAT"), ([-0.0], "FLOAT")],
         [(0, "FLOAT"), (-0.0, "FLOAT")],
         [(1, "INT64"), (True, "INT64"), (1.0, "INT64"), (1, None), (True, None), (1.0, None)],
